@@ -299,6 +299,7 @@ func checkC04(r *Run) propMeta {
 	checkCommentEcho(r)
 	checkEscapedTextFinal(r, r.MustPkg("cypher/models/pgsql/format"), r.MustPkg("cypher/models/pgsql/translate"), r.MustPkg("cypher/models/pgsql"))
 	checkEscapeTable(r, r.MustPkg("cypher/models/pgsql/translate"))
+	checkDecodeOnce(r, "C04-R9-decode-once", r.MustPkg("cypher/frontend"), r.MustPkg("cypher/models/cypher"))
 	checkSearchResultTestsAgree(r, "C04-R8-search-result-tests-agree", "a piece-by-piece copy stops early, and a name with two doubled backticks in a row keeps them doubled: the SQL then addresses another property key than the query named", r.MustPkg("cypher/models/cypher"), r.MustPkg("cypher/frontend"), r.MustPkg("cypher/models/pgsql/format"))
 	r.Floor("C04-R2-raw-text-node", 40)
 	r.Floor("C04-R3-identifier-position", 20)
